@@ -88,7 +88,9 @@ Rename(tb, i, acc, flags) ==
                 ELSE IF f.kind = "classbody" /\ "classbody-inline" \in flags /\ Len(acc) > 0 THEN [f EXCEPT !.name = prev.name, !.file = prev.file]
                 ELSE IF f.kind = "lambda" /\ "lambda-name" \in flags THEN [f EXCEPT !.name = "__lambda_defn_temp__", !.file = Wild]
                 ELSE IF f.kind = "module" /\ "import-frame" \in flags /\ Len(acc) > 0
-                     THEN [f EXCEPT !.file = prev.file, !.name = IF prev.kind = "module" THEN f.name ELSE prev.name]
+                     THEN LET fn == { j \in 1..Len(acc) : acc[j].kind # "module" } IN      \* function activations entered so far
+                          [f EXCEPT !.file = prev.file,
+                                    !.name = IF fn = {} THEN f.name ELSE acc[CHOOSE j \in fn : \A k \in fn : k <= j].name]
                 ELSE f
        IN Rename(tb, i + 1, Append(acc, g), flags)
 
